@@ -100,14 +100,18 @@ class Explorer:
     if s.pos < len(s.trail):
       ent = s.trail[s.pos]
       if not ent[3].eq(c):
-        raise Unsupported("nondeterministic replay (condition differs from the recorded one)")
+        # z3.simplify orders AC arguments by internal ids, so a re-built term can differ structurally from
+        # the recorded one; accept it iff it is equivalent under the path condition (one solver call)
+        if ent[3].sort() != c.sort() or s.feasible(ent[3] != c):
+          raise Unsupported("nondeterministic replay (condition differs from the recorded one)")
+        c = ent[3]
       taken = ent[0]
     else:
       t = s.feasible(c)
       f = s.feasible(z3.Not(c))
-      if t and f:   ent = [True, True, False, c, None]
-      elif t:       ent = [True, False, False, c, None]
-      elif f:       ent = [False, False, False, c, None]
+      if t and f:   ent = [True, True, False, c, None, None]
+      elif t:       ent = [True, False, False, c, None, None]
+      elif f:       ent = [False, False, False, c, None, None]
       else: raise Unsupported("infeasible path condition")
       s.trail.append(ent)
       taken = ent[0]
@@ -117,34 +121,46 @@ class Explorer:
     return taken
 
   def concretise(s, e):
-    """return a concrete python int for bit-vector term e (signed), forking over all feasible values"""
+    """return a concrete python int for bit-vector term e (signed), forking over all feasible values.
+    The feasible values are enumerated once (solver + blocking clauses) and visited in ascending order, so
+    that re-executions -- and re-explorations of the same block by an outer explorer -- are deterministic."""
     e = z3.simplify(e)
     if z3.is_bv_value(e):
       return e.as_signed_long()
+    vals = None
+    j = 0
     while True:
       if s.pos < len(s.trail):
         ent = s.trail[s.pos]
-        v = ent[4]
-        if v is None: raise Unsupported("nondeterministic replay (expected a concretisation)")
-        c = ent[3]
-        taken = ent[0]
+        if ent[4] is None: raise Unsupported("nondeterministic replay (expected a concretisation)")
+        vals = ent[5]
+        v, c, taken = ent[4], ent[3], ent[0]
       else:
-        if not s.feasible(): raise Unsupported("infeasible path condition")
-        v = s.solver.model().eval(e, model_completion=True).as_signed_long()
+        if vals is None:
+          vals = []
+          blocked = []
+          while True:
+            if not s.feasible(*blocked): break
+            x = s.solver.model().eval(e, model_completion=True).as_signed_long()
+            vals.append(x); blocked.append(e != x)
+            STATS.concretisations += 1
+            s.nconc += 1
+            if s.nconc > s.max_concretisations:
+              raise BudgetExceeded(f"more than {s.max_concretisations} concretisations (a symbolic value reached a C boundary "
+                                   "on a large domain; enumeration is not this technique)")
+          if not vals: raise Unsupported("infeasible path condition")
+          vals.sort()
+          j = 0
+        v = vals[j]
         c = z3.simplify(e == v)
-        other = s.feasible(z3.Not(c))
-        ent = [True, other, False, c, v]
+        ent = [True, j + 1 < len(vals), False, c, v, vals]
         s.trail.append(ent)
         taken = True
-        STATS.concretisations += 1
-        s.nconc += 1
-        if s.nconc > s.max_concretisations:
-          raise BudgetExceeded(f"more than {s.max_concretisations} concretisations (a symbolic value reached a C boundary "
-                               "on a large domain; enumeration is not this technique)")
       s.pos += 1
       s._note_decision()
       s.pc.append(c if taken else z3.Not(c))
       if taken: return v
+      j = vals.index(v) + 1
 
   # -- driver ------------------------------------------------------------------
   def paths(s, fn):
